@@ -1,4 +1,5 @@
 pub mod c01;
+pub mod c02;
 pub mod c03;
 pub mod c04;
 pub mod c05;
@@ -7,6 +8,7 @@ pub mod c12;
 pub mod c13;
 pub mod c14;
 pub mod c15;
+pub mod c17;
 pub mod c19;
 pub mod cfcase;
 pub mod c16;
@@ -17,6 +19,7 @@ use std::path::Path;
 pub fn run(ctx: &Ctx) -> i32 {
     match ctx.id.as_str() {
         "C01" => c01::run(ctx),
+        "C02" => c02::run(ctx),
         "C03" => c03::run(ctx),
         "C04" => c04::run(ctx),
         "C05" => c05::run(ctx),
@@ -26,6 +29,7 @@ pub fn run(ctx: &Ctx) -> i32 {
         "C14" => c14::run(ctx),
         "C15" => c15::run(ctx),
         "C16" => c16::run(ctx),
+        "C17" => c17::run(ctx),
         "C19" => c19::run(ctx),
         other => {
             eprintln!("unknown property {other}");
@@ -55,6 +59,7 @@ pub fn replay(ctx: &Ctx, path: &Path) -> i32 {
     let tape = unhex(v["tape_hex"].as_str().unwrap_or(""));
     let r = match ctx.id.as_str() {
         "C01" => c01::replay(ctx, &check, &tape),
+        "C02" => c02::replay(ctx, &check, &tape),
         "C03" => c03::replay(ctx, &check, &tape),
         "C04" => c04::replay(ctx, &check, &tape),
         "C05" => c05::replay(ctx, &check, &tape),
@@ -64,6 +69,7 @@ pub fn replay(ctx: &Ctx, path: &Path) -> i32 {
         "C14" => c14::replay(ctx, &check, &tape),
         "C15" => c15::replay(ctx, &check, &tape),
         "C16" => c16::replay(ctx, &check, &tape),
+        "C17" => c17::replay(ctx, &check, &tape),
         "C19" => c19::replay(ctx, &check, &tape),
         other => {
             eprintln!("unknown property {other}");
